@@ -286,9 +286,12 @@ CONTRACTS = {
         'requires': ['formula._numvar >= 0', 'cmaxabs(formula._clauses) <= formula._numvar', 'not chaszero(formula._clauses)'],
         'raises': {},
         'loops': {
-            0: {'inv': ['i == 1 + _it', 'len(substitutions) == 2 * N + 1', 'N == formula._numvar',
-                        'forall(lambda j: implies(1 <= j and j < i, substitutions[j] == gad(subst, j)), lambda j: gad(subst, j))',
-                        'forall(lambda j: implies(-i < j and j <= -1, substitutions[2 * N + 1 + j] == gad(subst, j)), lambda j: gad(subst, j))']},
+            # stated over the loop counter, not over the loop variable: an edited range bound then fails a decisive obligation
+            # ... and over the table's own length (L0), whatever it is: only "long enough that the two halves do not meet" matters
+            0: {'ghost_at_entry_vals': {'L0': 'len(substitutions)'},
+                'inv': ['len(substitutions) == L0', 'L0 >= 2 * N + 1',
+                        'forall(lambda j: implies(1 <= j and j <= _it, substitutions[j] == gad(subst, j)), lambda j: gad(subst, j))',
+                        'forall(lambda j: implies(-_it <= j and j <= -1, substitutions[L0 + j] == gad(subst, j)), lambda j: gad(subst, j))']},
             1: {'ghost_at_entry': {'C0': '_iter'},
                 'inv': ['_ys == cdistall(subst, C0, _it)']},
         },
